@@ -15,17 +15,85 @@ from mc.oracles import close, fd_grad, maxerr
 MOD = "mc.props.c05"
 
 
+LARGE = [{"mode": "large", "kind": kind, "d": d, "scale": scale}
+         for kind in ("cholesky", "dense", "constrained_lebesgue")
+         for d, scale in ((60, 1e6), (60, 1e-6), (400, 0.05), (400, 30.0), (6, 0.05))]
+
+
 def configs(tier, seed):
     if tier == "quick":
-        return zoo.system_configs(seed, tier, derived_metrics=True)
+        return zoo.system_configs(seed, tier, derived_metrics=True) + \
+            [dict(c, seed=seed) for c in LARGE]
     # thorough: three parameter variants of every metric / constraint / state lattice
     out = []
     for sd in (seed, seed + 3, seed + 5):
         out += zoo.system_configs(sd, tier, derived_metrics=True)
-    return out
+    return out + [dict(c, seed=seed) for c in LARGE]
+
+
+def check_large(cfg, acc):
+    """Hamiltonian VALUES of systems of dimension 60 / 400 whose metric / Gram determinant leaves
+    the double range although its logarithm is an ordinary number."""
+    from mici import systems as S
+
+    d, scale, kind = cfg["d"], cfg["scale"], cfg["kind"]
+    k = np.arange(d)
+
+    def chol(q):
+        return np.diag(scale * (1.0 + 0.3 * np.cos(k + q[0]))) + \
+            0.01 * scale * np.tril(np.sin(np.add.outer(k, 2.0 * k) + q[1]), -1)
+
+    def nld(q):
+        return 0.5 * float(q @ q)
+
+    q = 0.1 * np.cos(k + 0.3 * cfg["seed"])
+    p = 0.2 * np.sin(1.0 + k)
+    L = chol(q)
+    Mq = L @ L.T
+    if kind == "cholesky":
+        system = S.CholeskyFactoredRiemannianMetricSystem(
+            nld, chol, grad_neg_log_dens=lambda x: x,
+            vjp_metric_chol_func=lambda x: (lambda v: np.zeros_like(x)))
+        h1_ref = nld(q) + 0.5 * np.linalg.slogdet(Mq)[1]
+        h2_ref = 0.5 * p @ np.linalg.solve(Mq, p)
+    elif kind == "dense":
+        system = S.DenseRiemannianMetricSystem(
+            nld, lambda x: chol(x) @ chol(x).T, grad_neg_log_dens=lambda x: x,
+            vjp_metric_func=lambda x: (lambda v: np.zeros_like(x)))
+        h1_ref = nld(q) + 0.5 * np.linalg.slogdet(Mq)[1]
+        h2_ref = 0.5 * p @ np.linalg.solve(Mq, p)
+    else:  # many linear constraints of small / large scale, density w.r.t. Lebesgue measure
+        nc = d // 2
+        Jc = scale * (np.eye(nc, d) + 0.01 * np.sin(np.add.outer(np.arange(nc), k)))
+        system = S.DenseConstrainedEuclideanMetricSystem(
+            nld, lambda x: Jc @ x, dens_wrt_hausdorff=False, grad_neg_log_dens=lambda x: x,
+            jacob_constr=lambda x: Jc,
+            mhp_constr=lambda x: (lambda m: np.zeros_like(x)))
+        h1_ref = nld(q) + 0.5 * np.linalg.slogdet(Jc @ Jc.T)[1]
+        h2_ref = 0.5 * p @ p
+    F = {"class": type(system).__name__, "metric": f"large:{kind}"}
+    st = zoo.mk_state(q, p)
+    for meth, ref in (("h1", h1_ref), ("h2", h2_ref), ("h", h1_ref + h2_ref)):
+        acc.count("evaluations")
+        try:
+            got = float(getattr(system, meth)(st))
+        except Exception as e:  # noqa: BLE001
+            acc.violation(driver="large", config=cfg, fields={**F, "method": meth,
+                                                              "exception": type(e).__name__},
+                          kind="exception", observed=repr(e)[:200], expected=float(ref))
+            continue
+        if not np.isfinite(got) or abs(got - ref) > 1e-8 * (1.0 + abs(ref)):
+            acc.violation(driver="large", config=cfg, fields={**F, "method": meth},
+                          kind="value_mismatch", observed=got, expected=float(ref))
+        else:
+            acc.outcome((F["class"], "large", meth, d, scale))
+    acc.count("cases")
 
 
 def check_config(cfg, acc):
+    if cfg.get("mode") == "large":
+        check_large(cfg, acc)
+        return
     case = zoo.build_case(cfg)
     S = case.system
     sts = zoo.states(case.d, cfg.get("seed", 0), 4 if cfg.get("tier") == "thorough" else 3)
@@ -132,7 +200,9 @@ def run(tier, seed, acc):
         "rule": "complete product of system class x constant-metric type (or Riemannian family) x "
                 "target x return convention x dimension 1..3, each at 3-4 lattice states; every "
                 "value/derivative method compared with a dense NumPy reference of the documented "
-                "formula or its central difference; distinct = distinct (class, method, value)",
+                "formula or its central difference; plus Hamiltonian values of Cholesky / dense "
+                "Riemannian and Lebesgue-density constrained systems of dimension 60 / 400 whose "
+                "determinants leave the double range; distinct = distinct (class, method, value)",
         "exhaustive": True,
         "bounds": {"configs": len(cfgs), "tier": tier},
     }
